@@ -13,6 +13,7 @@ EXPLANATION = (
     "and every tag string reach the serialization only through json_escape, whose table equals NIP-01's seven escapes "
     "with every other scalar >= 0x20 verbatim and whose inverse arms in json_unescape agree. The cryptography itself "
     "and equality with an independent canonicaliser on all strings are not decided.")
+EXPLANATION += " Also decided: every append of the escaper is the verbatim copy, an arm of the code-point dispatch, or the \\u form in the default arm under a proved code point <= 0x20."
 ASSUMPTIONS = ["secp256k1 and SHA-256 are correct (trusted dependencies)"]
 
 NIP01_TEMPLATE = '[0,"{}",{},{},{},"{}"]'
